@@ -30,6 +30,16 @@ GEN_TARGETS = ["exit_code", "choose_driver", "threads", "quit_after_match", "sta
                "sort_is_identity"]
 
 PAT = "hit"
+PRE_SCRIPT = os.path.join(vlib.CACHE, "tmp_c15pre", "pre.sh")
+
+
+def make_pre_script():
+    d = os.path.dirname(PRE_SCRIPT)
+    os.makedirs(d, exist_ok=True)
+    os.chmod(d, 0o755)
+    with open(PRE_SCRIPT, "w") as f:
+        f.write('#!/bin/sh\ncat "$1" || exit 9\ncase "$1" in *pf) exit 3;; esac\nexit 0\n')
+    os.chmod(PRE_SCRIPT, 0o755)
 
 
 # ----------------------------------------------------------------------------------------------- scenarios
@@ -54,8 +64,11 @@ def gen_entry(rng, depth, names):
         return dict(name=name, kind="file", lines=gen_lines(rng, True))
     if r < 0.52:
         return dict(name=name, kind="file", lines=gen_lines(rng, False))
-    if r < 0.66:
+    if r < 0.62:
         return dict(name=name, kind="unreadable", lines=gen_lines(rng, rng.random() < 0.7))
+    if r < 0.68:
+        # searched through --pre; the command prints the file, then exits 3 without a word on stderr
+        return dict(name=name + "pf", kind="prefail", lines=gen_lines(rng, rng.random() < 0.6))
     if r < 0.76:
         return dict(name=name, kind="dangling")
     if r < 0.86:
@@ -80,7 +93,9 @@ def gen_scenario(rng, force=None):
     implicit = rng.random() < 0.12
     if implicit:
         sort = sort or ("sort" if threads == 1 else None)
-    s = dict(entries=entries, mode=mode, threads=threads, sort=sort, implicit=implicit,
+    def any_prefail(es):
+        return any(e["kind"] == "prefail" or any_prefail(e.get("children", [])) for e in es)
+    s = dict(entries=entries, mode=mode, threads=threads, sort=sort, implicit=implicit, pre=any_prefail(entries),
              no_messages=rng.random() < 0.15, follow=rng.random() < 0.15, max0=rng.random() < 0.04,
              stats=(mode in ("quiet", "std", "count") and rng.random() < 0.35))
     if force:
@@ -92,10 +107,10 @@ def materialize(s, root):
     def mk(e, d):
         p = os.path.join(d, e["name"])
         k = e["kind"]
-        if k in ("file", "unreadable"):
+        if k in ("file", "unreadable", "prefail"):
             with open(p, "w") as f:
                 f.write("".join(l + "\n" for l in e["lines"]))
-            os.chmod(p, 0o644 if k == "file" else 0)
+            os.chmod(p, 0 if k == "unreadable" else 0o644)
         elif k == "dangling":
             os.symlink("nowhere_" + e["name"], p)
         elif k == "lockeddir":
@@ -164,6 +179,20 @@ def walk_items(s):
                 items.append(dict(kind="hay", path=path, res=0, out=path.encode() + b"\n"))
             else:
                 items.append(dict(kind="hay", path=path, res=2, out=b""))
+        elif k == "prefail":
+            hit = any(PAT in l for l in e["lines"])
+            out = hay_out(s, path, e["lines"], one_file)
+            if s["mode"] == "files":
+                items.append(dict(kind="hay", path=path, res=0, out=path.encode() + b"\n"))
+            elif s["max0"]:
+                items.append(dict(kind="hay", path=path, res=1, out=b""))
+            elif hit and s["mode"] in ("list", "quiet") and not s.get("stats"):
+                # the search stops at the first match: the command is cut short, silent -> not an error (C18)
+                items.append(dict(kind="hay", path=path, res=0, out=out))
+            else:
+                # its output was consumed, it exited 3: an error; one thread has already printed the matching lines
+                # (standard mode; a count is only printed when a search finishes)
+                items.append(dict(kind="hay", path=path, res=2, out=out if s["mode"] == "std" else b""))
     if s["implicit"]:
         for e in sorted(ents, key=lambda c: c["name"]):
             if e["kind"] != "missing":
@@ -203,6 +232,8 @@ def args_of(s):
         a += ["-m", "0"]
     if s.get("stats"):
         a.append("--stats")
+    if s.get("pre") and m != "files":
+        a += ["--pre", PRE_SCRIPT]
     if m != "files":
         a += ["-e", PAT]
     if not s["implicit"]:
@@ -280,6 +311,7 @@ def property_status(any_match, quiet, any_error):
 # ----------------------------------------------------------------------------------------------- fault runs
 
 def check_fault_scenarios(ctx, scns, avail):
+    make_pre_script()
     roots = []
     jobs = []
     for s in scns:
@@ -323,7 +355,7 @@ def check_fault_scenarios(ctx, scns, avail):
             stats[k] = stats.get(k, 0) + 1
         key = "%s/%s/%s" % (s["mode"], "par" if par else "ser", s["sort"])
         ctx.cov.setdefault("modes", {})[key] = ctx.cov.setdefault("modes", {}).get(key, 0) + 1
-        ctx.note_case(line, bool(kinds & {"unreadable", "missing", "dangling", "lockeddir"}))
+        ctx.note_case(line, bool(kinds & {"unreadable", "missing", "dangling", "lockeddir", "prefail"}))
         # ---- model vs code
         path_of = {v: k for k, v in ids.items()}
         got_diags = classify_stderr(r["err"])
@@ -471,17 +503,26 @@ def check_pipe(ctx, rng, n):
         mode = rng.choice(["std", "std", "std", "pre", "passthru", "files", "count"])
         total = sum(sizes.get(f, 1) * 30 for f in files)
         k = rng.choice([0, 1, rng.randint(0, 4096), rng.randint(0, max(1, total)), rng.randint(0, 70000), 65536, 65537])
-        cases.append(dict(files=files, threads=threads, mode=mode, k=k, fault=fault))
+        cases.append(dict(files=files, threads=threads, mode=mode, k=k, fault=fault, lb=rng.random() < 0.35))
     # fixed corner cases: the two repaired defects and the known finding
     cases += [dict(files=["big1"], threads=1, mode="std", k=10, fault=False),
               dict(files=["big1", "small"], threads=1, mode="std", k=0, fault=False),
               dict(files=["small", "big1"], threads=1, mode="pre", k=10, fault=False),
               dict(files=["big1"], threads=1, mode="pre", k=0, fault=False),
               dict(files=["none", "none"], threads=2, mode="passthru", k=0, fault=False),
-              dict(files=["none"], threads=1, mode="passthru", k=5, fault=False)]
+              dict(files=["none"], threads=1, mode="passthru", k=5, fault=False),
+              # line-buffered output, the consumer is gone before the first byte: the very first write fails
+              dict(files=["small", "mid"], threads=1, mode="files", k=0, fault=False, lb=True),
+              dict(files=["small", "mid", "big1"], threads=4, mode="files", k=0, fault=False, lb=True),
+              dict(files=["small"], threads=1, mode="files", k=0, fault=False, lb=True),
+              dict(files=["small", "mid"], threads=1, mode="std", k=0, fault=False, lb=True),
+              dict(files=["small", "mid"], threads=3, mode="std", k=0, fault=False, lb=True),
+              dict(files=["small", "mid"], threads=1, mode="files", k=0, fault=False, lb=False)]
 
     def args(c):
         a = ["--color", "never", "-j", str(c["threads"])]
+        if c.get("lb"):
+            a.append("--line-buffered")
         if c["mode"] == "pre":
             a += ["--pre", "cat"]
         if c["mode"] == "passthru":
@@ -491,7 +532,8 @@ def check_pipe(ctx, rng, n):
         if c["mode"] == "files":
             return a + ["--files"] + c["files"]
         return a + ["-e", PAT] + c["files"]
-    res = K.pmap(lambda c: K.run_rg(args(c), root, close_after=c["k"], timeout=300), cases)
+    # k = 0: the read end is closed before rg is even started (no race about who is first)
+    res = K.pmap(lambda c: K.run_rg(args(c), root, close_after=c["k"], timeout=300, preclosed=(c["k"] == 0)), cases)
     lines, owners = [], []
     for ci, c in enumerate(cases):
         one_file = len(c["files"]) == 1
@@ -536,7 +578,8 @@ def check_pipe(ctx, rng, n):
         replay = dict(kind="pipe", case=c, args=args(c), status=r["status"], err=repr(r["err"]), got=len(r["out"]),
                       secs=r["secs"], accepted=sorted(accept.get(ci, [])))
         ctx.note_case("pipe" + repr(c), True)
-        key = "pipe/%s/%s" % (c["mode"], "par" if c["threads"] > 1 and len(c["files"]) > 1 else "ser")
+        key = "pipe/%s/%s%s" % (c["mode"], "par" if c["threads"] > 1 and len(c["files"]) > 1 else "ser",
+                                "/line-buffered" if c.get("lb") else "")
         ctx.cov.setdefault("modes", {})[key] = ctx.cov.setdefault("modes", {}).get(key, 0) + 1
         if r["timeout"] or r["secs"] > 120:       # a complete search of these files takes well under a second
             ctx.violation("rg did not end promptly after its stdout was closed", replay)
@@ -717,6 +760,17 @@ def corpus():
              implicit=False, no_messages=False, follow=False, max0=False),
         dict(entries=[f("a", ["hit"]), f("b", ["hit"])], mode="std", threads=1, sort=None, implicit=False,
              no_messages=False, follow=False, max0=True),
+        # a preprocessor that exits non-zero silently after its output was consumed: status 2, diagnostic names the file
+        dict(entries=[dict(name="apf", kind="prefail", lines=["hit"]), f("b", ["hit"])], mode="std", threads=1, sort=None,
+             implicit=False, no_messages=False, follow=False, max0=False, pre=True),
+        dict(entries=[dict(name="apf", kind="prefail", lines=["zzz"]), f("b", ["zzz"])], mode="std", threads=1, sort=None,
+             implicit=False, no_messages=False, follow=False, max0=False, pre=True),
+        dict(entries=[dict(name="apf", kind="prefail", lines=["hit"]), f("b", ["hit"]), f("c", ["no"])], mode="count",
+             threads=4, sort=None, implicit=False, no_messages=False, follow=False, max0=False, pre=True),
+        dict(entries=[dict(name="apf", kind="prefail", lines=["zzz"]), f("b", ["zzz"])], mode="quiet", threads=3,
+             sort=None, implicit=False, no_messages=False, follow=False, max0=False, pre=True),
+        dict(entries=[dict(name="apf", kind="prefail", lines=["zzz"])], mode="list", threads=1,
+             sort=None, implicit=False, no_messages=False, follow=False, max0=False, pre=True),
         # quiet is not quit_after_match: -q --stats searches everything, still exits 0 on a match despite an error
         dict(entries=[f("a", ["hit"]), dict(name="u", kind="unreadable", lines=["hit"])], mode="quiet", threads=1,
              sort=None, implicit=False, no_messages=False, follow=False, max0=False, stats=True),
